@@ -17,8 +17,8 @@ const P: &str = "C19";
 
 #[derive(Clone, Debug, Serialize, Deserialize)]
 pub enum Case {
-    Chain { main: chainsim::Case, noise: chainsim::Case, sched: Vec<u8>, subprocess: bool },
-    Stake { main: stakesim::Case, noise: stakesim::Case, sched: Vec<u8>, subprocess: bool },
+    Chain { main: chainsim::Case, noise: chainsim::Case, sched: Vec<u8>, subprocess: bool, #[serde(default)] skew_ms: u32 },
+    Stake { main: stakesim::Case, noise: stakesim::Case, sched: Vec<u8>, subprocess: bool, #[serde(default)] skew_ms: u32 },
 }
 
 pub struct TwinSim;
@@ -94,14 +94,22 @@ fn make_stake(c: &stakesim::Case) -> Box<dyn Inst> {
 }
 
 /// Runs A, B (same case) and N (noise) under the schedule; instances are created on first use.
-fn run_schedule(mk_main: &dyn Fn() -> Box<dyn Inst>, mk_noise: &dyn Fn() -> Box<dyn Inst>, sched: &[u8], with: (bool, bool, bool)) -> (Option<Box<dyn Inst>>, Option<Box<dyn Inst>>) {
+fn run_schedule(mk_main: &dyn Fn() -> Box<dyn Inst>, mk_noise: &dyn Fn() -> Box<dyn Inst>, sched: &[u8], with: (bool, bool, bool), skew_ms: u32) -> (Option<Box<dyn Inst>>, Option<Box<dyn Inst>>) {
     let mut a: Option<Box<dyn Inst>> = None;
     let mut b: Option<Box<dyn Inst>> = None;
     let mut n: Option<Box<dyn Inst>> = None;
     let turn = |who: u8, a: &mut Option<Box<dyn Inst>>, b: &mut Option<Box<dyn Inst>>, n: &mut Option<Box<dyn Inst>>| -> bool {
         match who % 3 {
             0 if with.0 => a.get_or_insert_with(|| mk_main()).step_one(),
-            1 if with.1 => b.get_or_insert_with(|| mk_main()).step_one(),
+            1 if with.1 => b
+                .get_or_insert_with(|| {
+                    // injected clock skew: real time passes between the creation of the twins
+                    if skew_ms > 0 {
+                        std::thread::sleep(std::time::Duration::from_millis(skew_ms as u64));
+                    }
+                    mk_main()
+                })
+                .step_one(),
             2 if with.2 => n.get_or_insert_with(|| mk_noise()).step_one(),
             _ => false,
         }
@@ -140,8 +148,8 @@ pub fn child_main(arrangement: &str) -> i32 {
     };
     let sched: Vec<u8> = if noise_first { vec![2; 100_000] } else { vec![] };
     let (a, _) = match &case {
-        Case::Chain { main, noise, .. } => run_schedule(&|| make_chain(main), &|| make_chain(noise), &sched, (true, false, with_noise)),
-        Case::Stake { main, noise, .. } => run_schedule(&|| make_stake(main), &|| make_stake(noise), &sched, (true, false, with_noise)),
+        Case::Chain { main, noise, .. } => run_schedule(&|| make_chain(main), &|| make_chain(noise), &sched, (true, false, with_noise), 0),
+        Case::Stake { main, noise, .. } => run_schedule(&|| make_stake(main), &|| make_stake(noise), &sched, (true, false, with_noise), 0),
     };
     if let Some(a) = a {
         for d in transcript_of(a.as_ref()) {
@@ -194,6 +202,9 @@ impl Engine for TwinSim {
     fn generate(&self, rng: &mut Rng, cfg: &Cfg) -> Case {
         let mode = rng.below(4);
         let subprocess = rng.chance(1, 5);
+        // rarely: let more than a second of real time pass between the twins (sequential schedule)
+        let skew_ms: u32 = if rng.chance(1, 120) { 1100 } else { 0 };
+        let mode = if skew_ms > 0 { 0 } else { mode };
         let gen_sched = |rng: &mut Rng, n: usize| -> Vec<u8> {
             match mode {
                 0 => vec![],                                   // sequential: A fully, then B
@@ -215,26 +226,32 @@ impl Engine for TwinSim {
             // the noise instance is configured differently (another address prefix)
             noise.prefix = main.prefix.wrapping_add(1 + rng.below(3) as u8);
             let n = main.ops.len();
-            Case::Chain { main, noise, sched: gen_sched(rng, n), subprocess }
+            Case::Chain { main, noise, sched: gen_sched(rng, n), subprocess, skew_ms }
         } else {
             let scfg = Cfg { property: "C14".to_string(), tier: cfg.tier, seed: cfg.seed };
             let main = stakesim::StakeSim.generate(rng, &scfg);
             let mut noise = stakesim::StakeSim.generate(rng, &scfg);
             noise.prefix = main.prefix.wrapping_add(1 + rng.below(3) as u8);
             let n = main.ops.len();
-            Case::Stake { main, noise, sched: gen_sched(rng, n), subprocess }
+            Case::Stake { main, noise, sched: gen_sched(rng, n), subprocess, skew_ms }
         }
     }
     fn execute(&self, case: &Case) -> RunResult {
         let mut stats = RunStats::default();
         let mut viol = vec![];
         let (a, b, sched_len, subprocess, kind) = match case {
-            Case::Chain { main, noise, sched, subprocess } => {
-                let (a, b) = run_schedule(&|| make_chain(main), &|| make_chain(noise), sched, (true, true, true));
+            Case::Chain { main, noise, sched, subprocess, skew_ms } => {
+                let (a, b) = run_schedule(&|| make_chain(main), &|| make_chain(noise), sched, (true, true, true), *skew_ms);
+                if *skew_ms > 0 {
+                    stats.fault("wall_clock_skew_between_twins");
+                }
                 (a, b, sched.len(), *subprocess, "chain")
             }
-            Case::Stake { main, noise, sched, subprocess } => {
-                let (a, b) = run_schedule(&|| make_stake(main), &|| make_stake(noise), sched, (true, true, true));
+            Case::Stake { main, noise, sched, subprocess, skew_ms } => {
+                let (a, b) = run_schedule(&|| make_stake(main), &|| make_stake(noise), sched, (true, true, true), *skew_ms);
+                if *skew_ms > 0 {
+                    stats.fault("wall_clock_skew_between_twins");
+                }
                 (a, b, sched.len(), *subprocess, "stake")
             }
         };
@@ -288,39 +305,41 @@ impl Engine for TwinSim {
     fn shrink(&self, case: &Case) -> Vec<Case> {
         let mut out = vec![];
         match case {
-            Case::Chain { main, noise, sched, subprocess } => {
+            Case::Chain { main, noise, sched, subprocess, skew_ms } => {
+                let skew_ms = *skew_ms;
                 for (s, e) in ddmin_drops(main.ops.len()) {
                     let mut m = main.clone();
                     m.ops = drop_range(&main.ops, s, e);
-                    out.push(Case::Chain { main: m, noise: noise.clone(), sched: sched.clone(), subprocess: *subprocess });
+                    out.push(Case::Chain { main: m, noise: noise.clone(), sched: sched.clone(), subprocess: *subprocess, skew_ms });
                 }
                 for (s, e) in ddmin_drops(noise.ops.len()) {
                     let mut m = noise.clone();
                     m.ops = drop_range(&noise.ops, s, e);
-                    out.push(Case::Chain { main: main.clone(), noise: m, sched: sched.clone(), subprocess: *subprocess });
+                    out.push(Case::Chain { main: main.clone(), noise: m, sched: sched.clone(), subprocess: *subprocess, skew_ms });
                 }
                 if !sched.is_empty() {
-                    out.push(Case::Chain { main: main.clone(), noise: noise.clone(), sched: vec![], subprocess: *subprocess });
+                    out.push(Case::Chain { main: main.clone(), noise: noise.clone(), sched: vec![], subprocess: *subprocess, skew_ms });
                 }
             }
-            Case::Stake { main, noise, sched, subprocess } => {
+            Case::Stake { main, noise, sched, subprocess, skew_ms } => {
+                let skew_ms = *skew_ms;
                 for (s, e) in ddmin_drops(main.ops.len()) {
                     let mut m = main.clone();
                     m.ops = drop_range(&main.ops, s, e);
-                    out.push(Case::Stake { main: m, noise: noise.clone(), sched: sched.clone(), subprocess: *subprocess });
+                    out.push(Case::Stake { main: m, noise: noise.clone(), sched: sched.clone(), subprocess: *subprocess, skew_ms });
                 }
                 for (s, e) in ddmin_drops(noise.ops.len()) {
                     let mut m = noise.clone();
                     m.ops = drop_range(&noise.ops, s, e);
-                    out.push(Case::Stake { main: main.clone(), noise: m, sched: sched.clone(), subprocess: *subprocess });
+                    out.push(Case::Stake { main: main.clone(), noise: m, sched: sched.clone(), subprocess: *subprocess, skew_ms });
                 }
                 if !sched.is_empty() {
-                    out.push(Case::Stake { main: main.clone(), noise: noise.clone(), sched: vec![], subprocess: *subprocess });
+                    out.push(Case::Stake { main: main.clone(), noise: noise.clone(), sched: vec![], subprocess: *subprocess, skew_ms });
                 }
                 if main.n_delegators > 2 {
                     let mut m = main.clone();
                     m.n_delegators -= 1;
-                    out.push(Case::Stake { main: m, noise: noise.clone(), sched: sched.clone(), subprocess: *subprocess });
+                    out.push(Case::Stake { main: m, noise: noise.clone(), sched: sched.clone(), subprocess: *subprocess, skew_ms });
                 }
             }
         }
